@@ -527,7 +527,14 @@ func (r *runner) probe(i int, o *op, failing bool) string {
 		if g[0] != want.G0 {
 			bad("counter", fmt.Sprintf("counter=%#x, model says %#x (diff %#x)", g[0], want.G0, g[0]-want.G0))
 		}
+		// the host's view of the same state (api.Global / api.Memory)
+		if hg := ri.mod.ExportedGlobal("g0"); hg == nil || hg.Get() != g[0] {
+			bad("host-view", fmt.Sprintf("api.Global g0 differs from the guest's view %#x", g[0]))
+		}
 		for ci, a := range probeAddrs {
+			if hv, ok := ri.mod.Memory().ReadUint64Le(a); !ok || hv != want.Cells[ci] {
+				bad("host-view", fmt.Sprintf("api.Memory.ReadUint64Le(%d)=%#x,%v, model says %#x", a, hv, ok, want.Cells[ci]))
+			}
 			v, err := ri.fns["load"][0].Call(ctx, uint64(a))
 			if err != nil || len(v) != 1 {
 				bad("memory", fmt.Sprintf("load(%d) failed: %v", a, err))
@@ -613,6 +620,10 @@ func runHistory(e *engine, ops []*op, probeSel func(i int) bool, log bool) *runn
 			line += " | " + r.probe(i, o, failing)
 		}
 		r.trans = append(r.trans, line)
+		if len(r.findings) > 0 {
+			// everything later in this history would be a consequence of the first deviation
+			break
+		}
 		if (o.Kind == "reinst") && err != nil {
 			// nothing sensible can follow
 			r.report(i, "instantiate-failed:"+e.name+":"+normClass(got), fmt.Sprintf("op %d %s: %v", i, o.desc(), err))
